@@ -44,7 +44,7 @@ def template_texts(rnd):
 
 def wellformed(p): return len(p) % 2 == 0 and all(c in HEXCHARS for c in p)
 def impl(p):
-    try: return "ok " + sign_packet_with_crc_key(p)
+    try: return lib.ok(sign_packet_with_crc_key(p))
     except Exception: return "raised"
 def impl_other_spellings(p):
     """the same call spelled with its keyword, from a dict, through functools.partial and on a str subclass: one answer"""
